@@ -69,9 +69,14 @@ def run(chk):
     shapes = dict_shapes()
     n = 0
     try:
-        for (lname, lmk), gmode, eff, ext in itertools.product(shapes.items(), ("none", "dict", "same"), EFFECTS, EXITS):
+        for (lname, lmk), gmode, eff, ext in itertools.product(shapes.items(), ("none", "dict", "same", "namespace-of-the-module"), EFFECTS, EXITS):
             loc = lmk()
-            glob = None if gmode == "none" else ({"g": 1} if gmode == "dict" else loc)
+            the_module = types.ModuleType("hv_c39")
+            if gmode == "namespace-of-the-module":
+                # the dictionary is the namespace of the very module given as `module` (hy.eval(model, vars(m), module=m))
+                vars(the_module).update(loc)
+                loc = vars(the_module)
+            glob = None if gmode in ("none", "namespace-of-the-module") else ({"g": 1} if gmode == "dict" else loc)
             had = "hy" in loc
             was = loc.get("hy", SENT)
             before_other = {k: v for k, v in loc.items() if k != "hy"}
@@ -97,7 +102,7 @@ def run(chk):
             hc.hy_eval = callee
             exc = val = None
             try:
-                val = hc.hy_eval_user(Integer(1), globals=glob, locals=loc, module=types.ModuleType("hv_c39"))
+                val = hc.hy_eval_user(Integer(1), globals=glob, locals=loc, module=the_module)
             except SCRIPTED as e:
                 exc = e
             name = f"restore/locals={lname}/globals={gmode}/callee={eff}/{ext}"
@@ -212,12 +217,23 @@ def run(chk):
             return ("value", hy.eval(hy.read_many(src), locals=d, module=types.ModuleType("hv_c39c")))
         except BaseException as e:  # noqa: BLE001
             return ("raise", type(e).__name__)
+    def outcome_in_module(src, d):
+        try:
+            return ("value", hy.eval(hy.read_many(src), d, module=MODS[id(d)]))
+        except BaseException as e:  # noqa: BLE001
+            return ("raise", type(e).__name__)
+    MODS = {}
     for src in srcs:
         ref = outcome(src, {})
-        for lname, lmk in shapes.items():
+        for lname, lmk in list(shapes.items()) + [(n + " (the namespace of the module given as `module`)", mk) for n, mk in shapes.items()]:
             d = lmk()
+            if lname.endswith("`module`)"):
+                m_ = types.ModuleType("hv_c39m")
+                vars(m_).update(d)
+                d = vars(m_)
+                MODS[id(d)] = m_
             had, was = "hy" in d, d.get("hy", SENT)
-            got = outcome(src, d)
+            got = outcome_in_module(src, d) if id(d) in MODS else outcome(src, d)
             chk.case(("e2e", src, lname))
             if ("hy" in d) != had or (had and d["hy"] is not was):
                 bad.append((src, lname))
